@@ -250,6 +250,11 @@ func (f *Frame) freshRef(cur *blockCur, hint string) string {
 	}
 	c.allAllocs = append(c.allAllocs, ref)
 	f.nonNilRoots()[ref] = true
+	// above the allocation watermark: distinct from every reference that exists so far, loaded or not (alloc.go)
+	if cur.st != nil {
+		facts = append(facts, fmt.Sprintf("(> %s %s)", ref, cur.st.watermark()))
+		cur.st = cur.st.set(allocKey, ref)
+	}
 	cur.assume(and(facts...))
 	return ref
 }
@@ -509,6 +514,9 @@ func (f *Frame) execConvert(cur *blockCur, x *ssa.Convert) {
 		arr := c.declare(f.prefixSym()+x.Name()+"_arrv", fmt.Sprintf("(Array %s %s)", c.so.idxSort(), c.so.sortOf(types.Typ[types.Byte])))
 		if c.mode == ModeInt {
 			cur.assume(fmt.Sprintf("(forall ((i Int)) (! (=> (and (<= 0 i) (< i (slen %s))) (= (select %s i) (sat %s i))) :pattern ((select %s i))))", v.S, arr, v.S, arr))
+			// string([]byte(s)) == s
+			c.bytesToStr(cur.st.get(k), "(mk_slice 0 0 0 0)")
+			cur.assume(fmt.Sprintf("(= (str_of_bytes %s %s (slen %s)) %s)", arr, c.so.idxLit(0), v.S, v.S))
 		}
 		cur.st = cur.st.set(k, fmt.Sprintf("(store %s %s %s)", cur.st.get(k), ref, arr))
 		f.named(x, fmt.Sprintf("(mk_slice %s %s (slen %s) (slen %s))", ref, c.so.idxLit(0), v.S, v.S))
